@@ -14,7 +14,8 @@ open PrologVerif PrologVerif.VM PrologVerif.DecompileCompile PrologVerif.Activat
 
 /-- a VM answer `a1` against the reference's `a2`: equal up to renaming by first occurrence — or the
     VM's `applyAll` ran out of its inner fuel (100000) and `app` returned the template unresolved -/
-def AnsRel (tmpl a1 a2 : Term) : Prop := a1 = tmpl ∨ a1.canon = a2.canon
+def AnsRel (tmpl a1 a2 : Term) : Prop :=
+  a1.canon = a2.canon ∨ (a1 = tmpl ∧ ∃ (σ : Subst) (π : Nat → Nat), a2 = (tmpl.subst σ).rename π)
 
 mutual
   theorem specRename_eq (ρ : Nat → Nat) : ∀ t : Term, CollectSpec.rename ρ t = t.rename ρ
@@ -64,9 +65,9 @@ theorem ansRel_of_sim {tmpl : Term} {N : Nat} {env : Env} {σ : Subst} {π : Nat
     {nv : Nat} (h : SimW tmpl N env σ π D nv) : AnsRel tmpl (app env tmpl) (img σ π tmpl) := by
   unfold app
   cases ha : applyAll inner env tmpl with
-  | none => exact Or.inl rfl
+  | none => exact Or.inr ⟨rfl, σ, π, rfl⟩
   | some t =>
-    right
+    left
     simp only [Option.getD_some]
     rw [applyAll_eq_subst h.mg.mgu inner tmpl t ha]
     symm
